@@ -8,7 +8,8 @@ From SPV Require Import Base.Str Model.DocScan Model.DocScanSpec Gen.FactsDoc Pr
    returns exactly the documentation written for the queried field - nothing from another field, nothing
    invented - and None exactly when the class does not declare the field.
    wf_layout is a boolean predicate: docstring texts without '#', ':', '=', quote characters, newlines; comment
-   texts (block above, inline) without quote characters and newlines ('#', ':', '=' allowed) and non-empty; no
+   texts (block above, inline) without newlines ('#', ':', '=', quote characters, whole triple-quote tokens allowed)
+   and non-empty; no
    white space at the ends of a text; identifiers as field names; annotation text
    without '#', ':', '='; DEFAULT-VALUE text arbitrary as long as every '#' in it is inside a closed string
    literal (single, double or triple quotes, escaped quotes and backslashes: the predicate `closed`, computed
@@ -92,7 +93,7 @@ Print Assumptions C19_history_independent.
 (* non-vacuity: a concrete layout inside the theorem's domain, what it prints and what the scanner answers *)
 Definition demo : layout :=
   mklayout ["@dataclass(frozen=True)"; "class Opt(Base):  # noqa"; "    """""""; """"""""] 4
-    [ mkfld "lr" "float" (Some "1e-3") 0 ["learning rate: see #12"; "second line"] (Some "inline lr = base # x") None;
+    [ mkfld "lr" "float" (Some "1e-3") 0 ["learning rate: see #12"; "use """""" or ''' here, it's fine"] (Some "inline lr = base # x") None;
       mkfld "lr_decay" "float" None 1 [] None (Some (DMulti Sq "" ["decay of lr"; ""; "more"] ""));
       mkfld "name" "str" (Some """run #1""") 2 ["above name"] (Some "which run") (Some (DOne Dq "doc of name"));
       mkfld "pat" "str" (Some "'it\'s #' + '''a#b'''") 0 [] None None ] 1.
@@ -100,11 +101,11 @@ Definition demo : layout :=
 Example C19_nonvacuous :
   wf_layout demo = true
   /\ render demo = ["@dataclass(frozen=True)"; "class Opt(Base):  # noqa"; "    """""""; """""""";
-                    "    # learning rate: see #12"; "    # second line"; "    lr: float = 1e-3  # inline lr = base # x";
+                    "    # learning rate: see #12"; "    # use """""" or ''' here, it's fine"; "    lr: float = 1e-3  # inline lr = base # x";
                     ""; "    lr_decay: float"; "    '''"; "    decay of lr"; "    "; "    more"; "    '''";
                     ""; ""; "    # above name"; "    name: str = ""run #1""  # which run"; "    """"""doc of name""""""";
                     "    pat: str = 'it\'s #' + '''a#b'''"; ""]
-  /\ scan_lines_gen (render demo) "lr" = Some (join_text ["learning rate: see #12"; "second line"], "inline lr = base # x", "")
+  /\ scan_lines_gen (render demo) "lr" = Some (join_text ["learning rate: see #12"; "use """""" or ''' here, it's fine"], "inline lr = base # x", "")
   /\ scan_lines_gen (render demo) "lr_decay" = Some ("", "", join_text [""; "decay of lr"; ""; "more"; ""])
   /\ scan_lines_gen (render demo) "name" = Some ("above name", "which run", "doc of name")
   /\ scan_lines_gen (render demo) "pat" = Some ("", "", "")
